@@ -92,6 +92,13 @@ func (p Parser) Parse(src io.Reader) (f File) {
 				}
 				return f
 			}
+			if n := duplicatedMergeKey(&doc, map[*yaml.Node]struct{}{}); n != nil {
+				f.Error = ParseError{
+					Err:  fmt.Errorf("duplicated %s key", n.Value),
+					Line: n.Line,
+				}
+				return f
+			}
 			g, f.Error = parseGroups(&doc, p.schema, 0, 0, cr.lines)
 			if f.Error.Err != nil {
 				return f
@@ -579,6 +586,37 @@ func nullTagWithText(node *yaml.Node, seen map[*yaml.Node]struct{}) *yaml.Node {
 	}
 	for _, child := range node.Content {
 		if n := nullTagWithText(child, seen); n != nil {
+			return n
+		}
+	}
+	return nil
+}
+
+// duplicatedMergeKey returns the second `<<` key of the first mapping that has more than one:
+// yaml refuses to decode such a mapping ("mapping key << already defined") while unpackNodes would expand both.
+func duplicatedMergeKey(node *yaml.Node, seen map[*yaml.Node]struct{}) *yaml.Node {
+	if _, ok := seen[node]; ok {
+		return nil
+	}
+	seen[node] = struct{}{}
+	if node.Kind == yaml.MappingNode {
+		var merges int
+		for i := 0; i+1 < len(node.Content); i += 2 {
+			if key := node.Content[i]; key.ShortTag() == mergeTag && key.Value == "<<" {
+				merges++
+				if merges > 1 {
+					return key
+				}
+			}
+		}
+	}
+	if node.Alias != nil {
+		if n := duplicatedMergeKey(node.Alias, seen); n != nil {
+			return n
+		}
+	}
+	for _, child := range node.Content {
+		if n := duplicatedMergeKey(child, seen); n != nil {
 			return n
 		}
 	}
